@@ -562,6 +562,8 @@ func (i *indexedTableRefIter) Next(rec record) (bool, error) {
 			// XXX test for this case
 			continue
 		}
+		// Update indices are stored relative to the table's minimum.
+		ref.UpdateIndex += i.r.header.MinUpdateIndex
 
 		if bytes.Compare(ref.Value, i.oid) == 0 || bytes.Compare(ref.TargetValue, i.oid) == 0 {
 			return true, nil
